@@ -70,18 +70,19 @@ type BackendCall struct {
 
 // Op is one client operation against a front end.
 type Op struct {
-	ID       int
-	Party    string
-	Replica  int
-	Kind     string // endpoint or pseudo kind
-	Method   string
-	Path     string
-	Query    string
-	Body     []byte
-	Bad      string // non-empty: deliberately bad request of this class
-	Sub      *Submission
-	Deadline time.Duration
-	Legacy   bool
+	ID        int
+	Party     string
+	Replica   int
+	Kind      string // endpoint or pseudo kind
+	Method    string
+	Path      string
+	Query     string
+	Body      []byte
+	Bad       string // non-empty: deliberately bad request of this class
+	Sub       *Submission
+	Deadline  time.Duration
+	Legacy    bool
+	SlowWrite bool // the client reads the response slowly: Write parks before taking the bytes
 
 	mu        sync.Mutex
 	Calls     []*BackendCall
@@ -568,6 +569,10 @@ func Serve(s *kernel.Sim, inst *ctfe.Instance, prefix string, op *Op, parent con
 		return
 	}
 	rec := httptest.NewRecorder()
+	var rw http.ResponseWriter = rec
+	if op.SlowWrite {
+		rw = &slowWriter{ResponseRecorder: rec, s: s, ctx: ctx, party: op.Party}
+	}
 	h, ok := inst.Handlers[prefix+op.Path]
 	func() {
 		defer func() {
@@ -576,10 +581,10 @@ func Serve(s *kernel.Sim, inst *ctfe.Instance, prefix string, op *Op, parent con
 			}
 		}()
 		if !ok {
-			http.NotFound(rec, req)
+			http.NotFound(rw, req)
 			return
 		}
-		h.ServeHTTP(rec, req)
+		h.ServeHTTP(rw, req)
 	}()
 	op.mu.Lock()
 	op.Status = rec.Code
@@ -588,6 +593,22 @@ func Serve(s *kernel.Sim, inst *ctfe.Instance, prefix string, op *Op, parent con
 	op.EndT = s.Now()
 	op.Done = true
 	op.mu.Unlock()
+}
+
+// slowWriter models a slow reader: every body Write parks in a seam before the
+// bytes are taken, so that other requests run while a response is in flight.
+type slowWriter struct {
+	*httptest.ResponseRecorder
+	s     *kernel.Sim
+	ctx   context.Context
+	party string
+}
+
+func (w *slowWriter) Write(b []byte) (int, error) {
+	if _, err := w.s.Seam(nil, w.party, "http.write", "", nil); err != nil {
+		return 0, err
+	}
+	return w.ResponseRecorder.Write(b)
 }
 
 func trimStack(b []byte) string {
